@@ -172,3 +172,10 @@ def control_obj(ekf, pt):
 
 def cov_obj(ekf, P):
     return ekf.Covariance.from_data(to_np(P, (len(P), len(P))))
+
+
+def cov_obj_named(ekf, P_by_name):
+    """Covariance from a {(row name, col name): value} map, placed through the class's own arglist"""
+    names = [str(a) for a in ekf.Covariance._arglist]
+    data = np.array([[float(P_by_name[(a, b)]) for b in names] for a in names], dtype=float).reshape((len(names), len(names)))
+    return ekf.Covariance.from_data(data)
